@@ -67,7 +67,9 @@ func (c *Check) add(rule, fn, construct, pos string, st Status, detail string) {
 	c.Obs = append(c.Obs, Obligation{Rule: rule, Key: mkKey(rule, fn, construct), Pos: pos, Status: st, Detail: detail})
 }
 
-func (c *Check) Pass(rule, fn, construct, pos, detail string) { c.add(rule, fn, construct, pos, OK, detail) }
+func (c *Check) Pass(rule, fn, construct, pos, detail string) {
+	c.add(rule, fn, construct, pos, OK, detail)
+}
 func (c *Check) Fail(rule, fn, construct, pos, detail string) {
 	c.add(rule, fn, construct, pos, Violated, detail)
 }
